@@ -542,6 +542,9 @@ class Program:
     def fn(self, path):
         return self.fns.get(path)
 
+    def has_crate(self, name):
+        return any(u.split(".")[0] == name for u in self.crates)
+
     def fns_matching(self, pred):
         return [f for f in self.fns.values() if pred(f)]
 
